@@ -28,55 +28,11 @@ _cache = {}
 def sim():
     """(simthreading, simqueue with instrumented Queue, threadpool module)"""
     if "mods" not in _cache:
-        simthreading, simqueue, tp = D.load_sim_modules()
-        base = simqueue.Queue
-
-        class IQueue(base):
-            """Emits acceptance/removal events atomically with the operation"""
-
-            def _put(self, item):
-                D.S().emit("q-put", item=_item_id(item), thread=D.S().me().name)
-                base._put(self, item)
-
-            def _get(self):
-                item = base._get(self)
-                D.S().emit("q-take", item=_item_id(item), thread=D.S().me().name)
-                return item
-
-            def put(self, item, block=True, timeout=None):
-                s = D.S()
-                name = s.me().name
-                s.emit("q-put-call", thread=name)
-                try:
-                    base.put(self, item, block, timeout)
-                except BaseException as ex:
-                    if not isinstance(ex, D.Abort):
-                        s.emit("q-put-return", thread=name, ok=False)
-                    raise
-                s.emit("q-put-return", thread=name, ok=True)
-
-            def get(self, block=True, timeout=None):
-                s = D.S()
-                name = s.me().name
-                s.emit("q-get-call", thread=name)
-                try:
-                    item = base.get(self, block, timeout)
-                except BaseException as ex:
-                    if not isinstance(ex, D.Abort):
-                        s.emit("q-get-return", thread=name, item="empty")
-                    raise
-                s.emit("q-get-return", thread=name, item=_item_id(item))
-                return item
-
-        simqueue.Queue = IQueue
-        _cache["mods"] = (simthreading, simqueue, tp)
+        _cache["mods"] = D.load_sim_modules()
     return _cache["mods"]
 
 
-def _item_id(item):
-    if isinstance(item, tuple) and len(item) == 4:
-        return getattr(item[0], "task_id", "task?")
-    return "sentinel"
+_item_id = D.queue_item_id
 
 
 # ---------------------------------------------------------------------------
